@@ -353,6 +353,24 @@ func init() {
 						res.States++
 					})
 				}
+				// the same relation through the real binary's flag layer, for a few windows
+				if li%2 == engine.Seed()%2 {
+					for _, w := range [][2]int{{3, 0}, {0, 7}, {4, 11}} {
+						for _, agg := range []bool{false, true} {
+							o := Call{Cmd: "variants", Msa: fastaOf(recs...), RefID: "ref", Anno: gb(l.Feats), AnnoSuffix: "gb", Start: w[0], End: w[1], Aggregate: agg, Threshold: 0.01, AppendSNP: true, Threads: 2}
+							if l.Formats[0] == "gff" {
+								o.Anno, o.AnnoSuffix = renderGFF(c04Genome, l.Feats, true, true), "gff"
+							}
+							ob, _ := o.CLI(nil, 0)
+							oc := o.Canon()
+							res.Evals++
+							res.Validated++
+							if ob.String() != oc.String() {
+								res.Violate("variants-window:binary-differs", fmt.Sprintf("real binary with --start %d --end %d aggregate=%v gives %s; the entry point called in-process gives %s", w[0], w[1], agg, ob.String(), oc.String()), c15Case{Relation: "variants-window", Base: o, Opt: o, Feats: l.Feats})
+							}
+						}
+					}
+				}
 			case "samvar":
 				feats := []Feat{{Name: "orfA", Segs: []Seg{{1, 9}}}, {Name: "orfR", Segs: []Seg{{10, 18}}, Reverse: true}}
 				var srecs []SamRec
